@@ -212,6 +212,10 @@ def tensor_bin(op, a, b):
     return t_bin(op, a, b)
 
 
+def _unused():
+    pass
+
+
 def t_pow(a, b):
     if isinstance(a, STensor) and is_conc(b) and b == 2:
         return t_bin('*', a, a)
@@ -258,6 +262,17 @@ def _torch_reshape(x, shape):
 
 def _torch_size(x=()):
     return tuple(x)
+
+
+def _torch_sqrt(x):
+    xs = x.snap()
+
+    def elem(idx):
+        v = xs(idx)
+        if isinstance(v, GS) and v.t:
+            raise Unsupported('torch.sqrt of data is non-linear (not representable in kernel mode)')
+        return tv_sqrt(v)
+    return fresh_like(x.shape, elem, x)
 
 
 def _unary_unsupported(name):
@@ -459,7 +474,7 @@ def setup_namespaces():
         'zeros_like': _torch_zeros_like, 'reshape': _torch_reshape, 'Size': _torch_size,
         'float': F32, 'double': F64, 'float32': F32, 'float64': F64,
         'get_default_dtype': lambda: DT_DEFAULT,
-        'sqrt': _unary_unsupported('torch.sqrt'), 'abs': _unary_unsupported('torch.abs'),
+        'sqrt': _torch_sqrt, 'abs': _unary_unsupported('torch.abs'),
         'autograd': NS('torch.autograd', {'Function': __import__('cbv.interp', fromlist=['x']).TY_FUNCTION}),
     })
     TORCH_NS.d['nn'] = NS('torch.nn', {'Parameter': lambda t, requires_grad=True: t.with_meta(param=True),
@@ -533,6 +548,13 @@ def instantiate(it, cls, args, kw):
     m = front.mod(cls.modkey)
     if cls.name + '.__init__' in m.funcs:
         it.call(cls.modkey, cls.name + '.__init__', [obj] + list(args), kw)
+    # A-module: .to()/.double()/.float() convert every registered buffer and Parameter (and nothing else), so at
+    # call time those carry the dtype of the input; a tensor kept as a plain attribute keeps its construction dtype
+    for name, v in list(obj.a.items()):
+        if isinstance(v, STensor):
+            v.base.owner = 'self:' + name
+            if name in obj.buffers or v.meta.get('param'):
+                obj.a[name] = v.with_meta(dtype=DT_IN)
     obj.__dict__['frozen'] = True
     return obj
 
